@@ -39,6 +39,9 @@ def tests(tree):
 def main():
     name, src, prop = sys.argv[1:4]
     allp = '--all' in sys.argv
+    _mp = os.path.join(ROOT, 'seeded', name, 'meta.json')
+    if os.path.exists(_mp) and json.load(open(_mp)).get('eval_all'):
+        allp = True          # detected by another check than its own: always evaluated against all of them
     tier = sys.argv[sys.argv.index('--tier') + 1] if '--tier' in sys.argv else 'quick'
     d = tempfile.mkdtemp(prefix='verif-seed-', dir='/dev/shm')
     meta = {'name': name, 'property': prop, 'source': src, 'evaluated_at_repo_commit':
@@ -112,6 +115,8 @@ def main():
         if old.get('checks'):
             hist.append({'at_verif_commit': old.get('verif_commit'), 'detected_by': old.get('detected_by'), 'checks': old.get('checks')})
         meta['history'] = hist
+        if allp:
+            meta['eval_all'] = True
         for keep in ('verdict_note', 'force_written_for_tree'):
             if keep in old:
                 meta[keep] = old[keep]
